@@ -64,4 +64,46 @@ def expectedFor_C04 : List (String × String) := [
 /-- the code behind C04 branches on exactly the conditions the model was written against -/
 theorem conditions_as_modelled_C04 : Gen.condSitesFor_C04 = expectedFor_C04 := by rfl
 
+def expectedOptFor_C04 : List (String × String) := [
+  ("v2/array.go:jsonArray.Json:dispatch#1", "own"),
+  ("v2/array.go:jsonArray.Yaml:dispatch#1", "own"),
+  ("v2/array.go:jsonArray.Equals:dispatch#1", "own"),
+  ("v2/array.go:jsonArray.Equals:dispatch#2", "own"),
+  ("v2/array.go:jsonArray.Equals:Equals#1", "own"),
+  ("v2/array.go:jsonArray.hashCode:dispatch#1", "own"),
+  ("v2/array.go:jsonArray.hashCode:hashCode#1", "own"),
+  ("v2/array.go:jsonArray.Diff:dispatch#1", "own"),
+  ("v2/array.go:jsonArray.Diff:dispatch#2", "own"),
+  ("v2/array.go:jsonArray.Diff:getPatchStrategy#1", "own"),
+  ("v2/array.go:jsonArray.diff:dispatch#1", "own"),
+  ("v2/array.go:jsonArray.diff:dispatch#2", "own"),
+  ("v2/array.go:jsonArray.patch:dispatch#1", "expr:metadata"),
+  ("v2/bool.go:jsonBool.Diff:getPatchStrategy#1", "own"),
+  ("v2/list.go:jsonList.Equals:dispatch#1", "own"),
+  ("v2/list.go:jsonList.Equals:Equals#1", "own"),
+  ("v2/list.go:jsonList.hashCode:hashCode#1", "own"),
+  ("v2/multiset.go:jsonMultiset.Equals:dispatch#1", "own"),
+  ("v2/multiset.go:jsonMultiset.Equals:hashCode#1", "own"),
+  ("v2/multiset.go:jsonMultiset.Equals:hashCode#2", "own"),
+  ("v2/multiset.go:jsonMultiset.hashCode:hashCode#1", "own"),
+  ("v2/null.go:jsonNull.Diff:getPatchStrategy#1", "own"),
+  ("v2/number.go:jsonNumber.Diff:getPatchStrategy#1", "own"),
+  ("v2/object.go:jsonObject.Equals:Equals#1", "own"),
+  ("v2/object.go:jsonObject.hashCode:hashCode#1", "own"),
+  ("v2/object.go:jsonObject.ident:hashCode#1", "own"),
+  ("v2/object.go:jsonObject.ident:hashCode#2", "own"),
+  ("v2/object.go:jsonObject.ident:hashCode#3", "own"),
+  ("v2/object.go:jsonObject.pathIdent:hashCode#1", "own"),
+  ("v2/set.go:jsonSet.Equals:dispatch#1", "own"),
+  ("v2/set.go:jsonSet.Equals:hashCode#1", "own"),
+  ("v2/set.go:jsonSet.Equals:hashCode#2", "own"),
+  ("v2/set.go:jsonSet.hashCode:dispatch#1", "own"),
+  ("v2/set.go:jsonSet.hashCode:hashCode#1", "own"),
+  ("v2/string.go:jsonString.Diff:getPatchStrategy#1", "own"),
+  ("v2/void.go:voidNode.Diff:getPatchStrategy#1", "own")
+]
+
+/-- every call inside the functions behind C04 passes on the option / metadata list the model passes on -/
+theorem option_plumbing_as_modelled_C04 : Gen.optSitesFor_C04 = expectedOptFor_C04 := by rfl
+
 end Jd.CondSites
